@@ -64,11 +64,11 @@ impl State {
         if let Token::Str(_str, _) = &token {
             self.pos = self
                 .pos
-                .offset_line((_str.lines().count() as i32 - 1) as usize);
+                .offset_line(_str.lines().count().saturating_sub(1));
         } else if let Token::DocStr(_str) = &token {
             self.pos = self
                 .pos
-                .offset_line((_str.lines().count() as i32 - 1) as usize);
+                .offset_line(_str.lines().count().saturating_sub(1));
         }
 
         res
